@@ -43,7 +43,7 @@ CHECKS = {
                  "self-signed, expired, not yet valid, other name, other CA} / client certificate {valid, none, untrusted, expired}, protocol ceiling 1.0-1.3, optional client-cert "
                  "demand, or a plaintext peer, a garbage peer (optionally with a TLS record header), a peer that resets mid-handshake, a silent peer; simulated wall clock in 2030, "
                  "2036, 2046 or jumping to 2046 after the contexts were built; drawn segmentation, latency, short reads/writes, ET/LT; three jobs: iora as client, iora as server, "
-                 "HttpClient (incl. TLS configuration set after first use, names resolved through a simulated DNS server). A rule table written from the property text decides per "
+                 "HttpClient (incl. TLS configuration set after first use, a plain http request to the same host:port before the https one, names resolved through a simulated DNS server). A rule table written from the property text decides per "
                  "cell whether a session MAY exist; observed: onConnect/connectSync/HttpClient result, data delivered by onData, what the OpenSSL peer decrypts and its negotiated "
                  "version, and every byte iora put on the wire (markers in clear, first byte a handshake record)"),
         "real": ["iora::network::TcpEngine TLS paths (initTls, doConnect, accept, driveHandshake, doSend queueing)", "iora::network::Transport", "iora::network::HttpClient + DnsClient (http job)",
